@@ -141,3 +141,66 @@ def sweep_object(path, aligns=(0,), only=None, time_budget=120.0, summaries=None
             r['object'] = path
             res.append(r)
     return res
+
+
+def jobwrite_function(obj, name, entry, argidx, allowed, job_size=216, summaries=None, insn_budget=800000, time_budget=600.0):
+    """C14 (machine-code side): sweep `name` with its IMB_JOB* parameter (System V argument `argidx`) pointing at a tracked descriptor object
+    whose bytes are symbolic.  On every explored return path each descriptor byte outside `allowed` (list of (lo, hi) ranges the library may
+    write) must still equal its initial value (a read-modify-write that stores the old value back is not an alteration).
+    Returns dict(name, result held|violated|inconclusive, writes=[offsets], bad=[(off, insn addr/text)])."""
+    from vlib.asmx.engine import reset_size_cache, simp, Region
+    reset_size_cache()
+    E = Engine(obj, mode='sweep', max_steps=400000, loop_bound=2)
+    E.memo = {}
+    E.called = set()
+    E.summaries = summaries or {}
+    E.stubs['*'] = abi_stub
+    E.stubs['*ind*'] = abi_stub
+    st, rsp0 = fresh_state(obj, 0)
+    JOBA = 0x1900000
+    job = Region('job', JOBA, job_size)
+    st.regions.append(job)
+    init = [job.get(i) for i in range(job_size)]
+    st.r[[7, 6, 2, 1, 8, 9][argidx]] = bv(JOBA, 64)
+    where = {}
+
+    def on_addr(s, ins, e, n, is_store):
+        c = conc(e)
+        if is_store and c is not None and JOBA <= c < JOBA + job_size:
+            for k in range(n):
+                where.setdefault(c - JOBA + k, (ins.addr if ins else 0, ins.text if ins else ''))
+    E.on_addr = on_addr
+
+    def key_extra(s):
+        rg = [r for r in s.regions if r.name == 'job'][0]
+        out = []
+        for o_ in sorted(rg.written):
+            b = rg.get(o_)
+            c = conc(b)
+            out.append((o_, 'same' if b.eq(init[o_]) else (c if c is not None else 'other')))
+        return (tuple(out),)
+    E.key_extra = key_extra
+    t0 = time.time()
+    out = dict(name=name, paths=0)
+    try:
+        fin = run_with_budget(E, st, entry, t0 + time_budget, insn_budget)
+    except (Unsupported, BoundExceeded, RecursionError) as e:
+        out.update(result='inconclusive', detail=str(e)[:300], steps=E.insn_count)
+        return out
+    bad, writes = [], set()
+    for f in fin:
+        rg = [r for r in f.regions if r.name == 'job'][0]
+        for o_ in sorted(rg.written):
+            writes.add(o_)
+            if any(lo <= o_ < hi for lo, hi in allowed):
+                continue
+            b = rg.get(o_)
+            if b.eq(init[o_]):
+                continue
+            r, m = E.check(f, b != init[o_])
+            if r != unsat:
+                bad.append((o_, where.get(o_, (0, ''))[0], where.get(o_, (0, ''))[1], str(r)))
+    bad = sorted(set(bad))
+    out.update(paths=len(fin), steps=E.insn_count, secs=time.time() - t0, writes=sorted(writes), bad=bad,
+               result='violated' if bad else ('held' if fin else 'inconclusive'), detail='' if fin else 'no path reached a return')
+    return out
